@@ -439,6 +439,36 @@ def polar_coordinates(
         raise NotImplementedError(f"Cannot calculate angles for dimension {grid.dim}")
 
 
+def grid_distance(grid: GridBase, p1: np.ndarray, p2: np.ndarray) -> np.ndarray:
+    """Distance between points given in Cartesian coordinates.
+
+    The distance respects periodic boundary conditions of the grid. In contrast to
+    :meth:`~pde.grids.base.GridBase.distance`, this also holds along the symmetry axis
+    of cylindrical grids.
+
+    Args:
+        grid (:class:`~pde.grids.base.GridBase`):
+            The grid defining the geometry
+        p1 (:class:`~numpy.ndarray`):
+            First point(s) in Cartesian coordinates
+        p2 (:class:`~numpy.ndarray`):
+            Second point(s) in Cartesian coordinates
+
+    Returns:
+        :class:`~numpy.ndarray`: The distance between the points
+    """
+    if isinstance(grid, CylindricalSymGrid):
+        # py-pde applies the periodicity of the axial coordinate to the wrong Cartesian
+        # component, so we here determine the shortest difference along the axis
+        diff = np.atleast_1d(np.asarray(p2, dtype=float) - np.asarray(p1, dtype=float))
+        if grid.periodic[1]:
+            z_min, z_max = grid.axes_bounds[1]
+            size = z_max - z_min
+            diff[..., 2] = (diff[..., 2] + size / 2) % size - size / 2
+        return np.linalg.norm(diff, axis=-1)  # type: ignore
+    return grid.distance(p1, p2, coords="cartesian")  # type: ignore
+
+
 def spherical_index_k(degree: int, order: int = 0) -> int:
     """Returns the mode `k` from the degree `degree` and order `order`
 
